@@ -138,8 +138,18 @@ def run_subscription(schema, text, variables, world, schedule, runtime_kind="asy
                 except StopAsyncIteration:
                     break
                 except RX.Boom as e:
-                    # the consumer notes the failed event and keeps listening
+                    # the consumer notes the failed event, lets the resolvers of that event which are still in flight
+                    # settle (all gates open now belong to it), and keeps listening
                     out["results"].append(e)
+                    for _ in range(400):
+                        while gates:
+                            g, _p = gates.pop(0)
+                            if not g.done():
+                                g.set_result(None)
+                        for _ in range(6):
+                            await asyncio.sleep(0)
+                        if not gates:
+                            break
                     continue
                 out["results"].append(r)
 
